@@ -101,7 +101,12 @@ def eval_points(rg, centre, seed):
     dirs = np.vstack([dirs, [[0, 0, 1.0]], [[0, 0, -1.0]], [[1.0, 0, 0]]])
     rad = np.concatenate([mids[[0, len(mids) // 3, len(mids) // 2, -2, -1]], mids[[1, 2]], mids[[len(mids) // 2]] * 1.0, mids[[1]]])
     rad = rad * (1 + lattice.jitter(seed, "rad", 0.0, 0.02))
-    return centre + dirs * rad[:, None]
+    pts = centre + dirs * rad[:, None]
+    # beyond the last shell and inside the first one (the interpolant continues its radial splines there)
+    extra = [centre + dirs[0] * 1.3 * rp[-1], centre + dirs[3] * 1.05 * rp[-1]]
+    if rp[0] > 1e-6:
+        extra.append(centre + dirs[1] * 0.5 * rp[0])
+    return np.vstack([pts, extra])
 
 
 def fd6(fn, p, h):
@@ -164,6 +169,14 @@ def _grid_case(arg):
                     if ang.shape != rp.shape or _gt(np.max(np.abs(ang - want)), 1e-10 * (np.max(np.abs(gfun(rp))) * 4 + 1e-300)):
                         res.violation(f"{tag}:angular-integral", f"integrate_angular_coordinates of g(r) Y_({l},{m}) differs from "
                                       f"sqrt(4pi) g_00(r_i) by {np.max(np.abs(ang - want)):.3e}", c2)
+                    if si == 0 and row in (0, 1, len(lm) - 1):
+                        # several functions at once (leading axes): row-wise the single-function answers
+                        stack = np.stack([f, 2.0 * f + 1.0, f[::-1].copy()])
+                        many = np.asarray(g.integrate_angular_coordinates(stack), dtype=float)
+                        one = np.stack([np.asarray(g.integrate_angular_coordinates(v.copy()), dtype=float) for v in stack])
+                        if many.shape != one.shape or _gt(np.max(np.abs(many - one)), 1e-12 * (np.max(np.abs(one)) + 1e-300)):
+                            res.violation(f"{tag}:angular-integral:stacked-functions", "integrate_angular_coordinates of three stacked functions "
+                                          "differs from the three single-function calls", c2)
                     tot = float(g.integrate(f))
                     if _gt(abs(np.sum(rp**2 * wr * ang) - tot), 1e-10 * (np.sum(np.abs(g.weights * f)) + 1e-300)):
                         res.violation(f"{tag}:radial-sum-not-grid-integral", "sum_i r_i^2 w_i x angular integral differs from the grid integral", c2)
